@@ -91,7 +91,7 @@ func (s *scenario) randomOp(r *rng, allowClose bool) []int {
 	case 4, 5, 6:
 		return []int{2, id, r.pick([]int{0, 0, 0, 5, 9})}
 	case 7, 8:
-		return []int{3, id}
+		return []int{3, id, r.pick([]int{0x0001, 0x0101, 0x0111, 0x0011})}
 	case 9, 10:
 		return []int{4, r.rangeIn(1, 9)}
 	case 11:
@@ -120,7 +120,11 @@ func (s *scenario) doCall(g *gstate, op []int) {
 			err = s.a.StopWithError(agentTID(op[1]), stopErr(op[2]))
 		}
 	case 3:
-		err = s.a.Process(&stun.Message{TransactionID: agentTID(op[1])})
+		pm := &stun.Message{TransactionID: agentTID(op[1])}
+		if len(op) > 2 {
+			pm.Type.ReadValue(uint16(op[2]))
+		}
+		err = s.a.Process(pm)
 	case 4:
 		err = s.a.Collect(agentBase.Add(time.Duration(op[1])))
 	case 5:
